@@ -29,7 +29,7 @@ ASSUMPTIONS = [
     'the application starts awaiting the result before the deadline (the library documents leniency for a first await after it)',
 ]
 
-LIFETIMES = [5, 50, 4000]
+LIFETIMES = [5, 50, 4000, 5, 50, 4000, 0]
 ALPHA = ['a', 'b', 'c']
 
 
@@ -67,7 +67,7 @@ def _history():
     cancel = st.fixed_dictionaries({'op': st.just('cancel'), 'i': st.integers(0, 7), 'race': st.sampled_from([None, None, 'data', 'nack'])})
     op = st.one_of(express, express, data, data, data, nack, adv, adv, adv, cancel)
     free = st.tuples(st.lists(express, min_size=1, max_size=4), st.lists(op, min_size=2, max_size=20),
-                     st.sampled_from([[], [], [], [{'op': 'shutdown'}]])).map(lambda t: t[0] + t[1] + t[2])
+                     st.sampled_from([[], [], [], [{'op': 'shutdown'}], [{'op': 'shutdown', 'how': 'cancel-main'}]])).map(lambda t: t[0] + t[1] + t[2])
     return st.one_of(free, free, _templates(express, op))
 
 
@@ -222,11 +222,15 @@ def _run(sim, fe, ops, r):
             if not comps:
                 # Interest with empty name cannot be expressed (final_name[-1]); outside the property's domain
                 continue
+            if op['life'] == 0:
+                op = dict(op, vlat='0')
             h = sim.express(comps, lifetime=op['life'], can_be_prefix=op['cbp'], vlat=vlat_seconds(op['vlat'], op['life']),
                             verdict=_verdict(fe, op['verdict']),
                             # awaited later, but while the Interest is still alive (a first await after the deadline is
                             # deliberately lenient in the library: "should not be considered as an error")
-                            await_after=(op.get('await_after', 0) if op.get('await_after', 0) < op['life'] - 2 else 0) / 1000,
+                            # (and only with a quick validator: in the legacy front-end validation starts when the result is awaited)
+                            await_after=(op.get('await_after', 0) if op.get('await_after', 0) < op['life'] - 2
+                                         and op['vlat'] in ('0', '1ms') else 0) / 1000,
                             shared_param=op.get('shared_param', False),
                             # an accepting validator without latency may be the stock object the library ships
                             validator='stock' if op.get('stock') and op['vlat'] == '0' and op['verdict'] else 'default')
@@ -234,7 +238,10 @@ def _run(sim, fe, ops, r):
                 r.bad(f'C03/{fe}/express-raised/{type(h.express_error).__name__}', repr(h.express_error))
                 return
             ents.append({'name': lst, 'cbp': op['cbp'], 'digest': op['digest'], 'life': op['life'], 'vlat': op['vlat'],
-                         'verdict': op['verdict'], 'h': h, 't0': h.t0_ms, 'd': h.t0_ms + op['life'], 'comps': comps})
+                         'verdict': op['verdict'], 'h': h, 't0': h.t0_ms, 'comps': comps,
+                         # (InterestLifetime 0: the library waits the 100 ms it grants an already expired deadline; anything
+                         # between 'expires at once' and 'expires after 100 ms' is accepted - see `lenient` below)
+                         'd': h.t0_ms + (op['life'] or 100), 'lenient': op['life'] == 0})
             events.append((h.t0_ms, 'express', len(ents) - 1))
             trace.append('E')
         elif k == 'data':
@@ -325,7 +332,13 @@ def _run(sim, fe, ops, r):
         elif k == 'shutdown':
             if alive:
                 events.append((sim.vl.now_ms(), 'shutdown', None))
-                sim.shutdown()
+                if op.get('how') == 'cancel-main' and sim.main_task is not None:
+                    # the connection ends because the task running main_loop() is cancelled (what Ctrl+C does)
+                    sim.vl.call(sim.main_task.cancel)
+                    sim.vl.settle()
+                    flags.add('main-loop-cancelled')
+                else:
+                    sim.shutdown()
                 alive = False
                 trace.append('S')
         # record first match time per entry (for adv_to validator)
@@ -343,6 +356,8 @@ def _run(sim, fe, ops, r):
         got = _outcome_label(h)
         if h.done_count != 1:
             r.bad(f'C03/{fe}/not-finished-once/count={h.done_count}', f'interest {i} {e["name"]} finished {h.done_count}x; allowed {allowed}')
+            continue
+        if e.get('lenient') and got == 'exc:InterestTimeout' and h.done_ms <= e['d'] + 1:
             continue
         if got not in allowed:
             kind = 'internal-error' if got.startswith('exc:') and got.split(':')[1] not in (
